@@ -17,11 +17,18 @@ RecvEv == {"Recv", "Cancel", "T1", "T2a", "T2b"}
 \* (a send of ten link-level frames running in the background), so that whatever recv has to send (credit flows) has to wait
 MixEv == {"Recv", "RecvNow1", "RecvNow2", "T1", "BigNow", "Yield"}
 SendEv == {"Send", "SendL", "SendM", "SendNow", "SendNowBig", "SendNow1", "SendNow2", "Cancel", "Yield", "Grant1", "Grant3", "Disp"}
+\* part "park": a batchable send fills the capacity-1 channel to the session, the next send is polled once (it takes its credit, records the
+\* delivery and waits for room in the channel) and is then frozen; while it is frozen the session engine processes a grant of the receiver
+\* (ParkF) or a settlement of the oldest delivery still unsettled (ParkD); then the frozen send is dropped.  No generous grant follows: the
+\* sends of the suffix live on the credit granted while the send was parked.
+ParkEv == {"SB", "ParkF", "ParkD", "Disp", "Yield"}
+Cnt(sc, S) == Len(SelectSeq(sc, LAMBDA e : e \in S))
 VARIABLES script, half
 Init == script = <<>> /\ half = FALSE
 Next == /\ Len(script) < Depth
-        /\ \E e \in (IF Part = "recv" THEN RecvEv ELSE IF Part = "mix" THEN MixEv ELSE SendEv) :
+        /\ \E e \in (IF Part = "recv" THEN RecvEv ELSE IF Part = "mix" THEN MixEv ELSE IF Part = "park" THEN ParkEv ELSE SendEv) :
              /\ (e = "T2b" => half) /\ (e \in {"T1", "T2a"} => ~half)
+             /\ (Part = "park" /\ e \in {"Disp", "ParkD"} => Cnt(script, {"Disp", "ParkD"}) < Cnt(script, {"SB", "ParkF", "ParkD"}))
              /\ script' = Append(script, e) /\ half' = (IF e = "T2a" THEN TRUE ELSE IF e = "T2b" THEN FALSE ELSE half)
 Spec == Init /\ [][Next]_<<script, half>>
 
@@ -60,7 +67,7 @@ RBody(sc, i, k) == IF i > Len(sc) THEN <<>> ELSE LET e == sc[i] IN
     [] OTHER -> <<X(k, FALSE, FALSE, 500 + k, 200, 60, -1)>> \o RBody(sc, i + 1, k + 1)
 Started == Len(SelectSeq(script, LAMBDA e : e \in {"T1", "T2b"}))        \* deliveries completed so far = index of the one in progress
 RSuffix == (IF half THEN <<X(Started, FALSE, FALSE, 500 + Started, 200, 60, -1)>> ELSE <<>>) \o [i \in 1..(Depth + 1) |-> [e |-> "ARecv", l |-> "L2"]]
-Grant(n) == [e |-> "PFrame", perf |-> "flow", ch |-> 3, ech |-> 0, f |-> [nii |-> [seen |-> 0], iw |-> 1000, noi |-> 0, ow |-> 100, h |-> 5, dc |-> [seen |-> 0], lc |-> n]]
+Grant(n) == [e |-> "PFrame", perf |-> "flow", ch |-> 3, ech |-> 0, nosettle |-> FALSE, f |-> [nii |-> [seen |-> 0], iw |-> 1000, noi |-> 0, ow |-> 100, h |-> 5, dc |-> [seen |-> 0], lc |-> n]]
 RECURSIVE SBody(_, _, _, _)
 SBody(sc, i, m, d) == IF i > Len(sc) THEN <<>> ELSE LET e == sc[i] IN
   CASE e = "Send" -> <<[e |-> "ASend", l |-> "L1", m |-> m, len |-> 20]>> \o SBody(sc, i + 1, m + 1, d)
@@ -76,9 +83,23 @@ SBody(sc, i, m, d) == IF i > Len(sc) THEN <<>> ELSE LET e == sc[i] IN
     [] e = "Grant1" -> <<Grant(1)>> \o SBody(sc, i + 1, m, d)
     [] e = "Grant3" -> <<Grant(3)>> \o SBody(sc, i + 1, m, d)
     [] OTHER -> <<[e |-> "PFrame", perf |-> "disposition", ch |-> 3, ech |-> 0, f |-> [role |-> "r", first |-> [d |-> d], last |-> -1, settled |-> TRUE, state |-> [k |-> "accepted", cond |-> "", txn |-> <<>>]]]>> \o SBody(sc, i + 1, m, d + 1)
+DispOne(d, ns) == [e |-> "PFrame", perf |-> "disposition", ch |-> 3, ech |-> 0, nosettle |-> ns,
+                    f |-> [role |-> "r", first |-> [d |-> d], last |-> -1, settled |-> TRUE, state |-> [k |-> "accepted", cond |-> "", txn |-> <<>>]]]
+Park(m) == [e |-> "ASendPark", l |-> "L1", m1 |-> m, len1 |-> 20, m |-> m + 1, len |-> 20, polls |-> 1, nosettle |-> TRUE]
+RECURSIVE PBody(_, _, _, _)
+PBody(sc, i, m, d) == IF i > Len(sc) THEN <<>> ELSE LET e == sc[i] IN
+  CASE e = "SB" -> <<[e |-> "ASend", l |-> "L1", m |-> m, len |-> 20, batchable |-> TRUE]>> \o PBody(sc, i + 1, m + 1, d)
+    [] e = "ParkF" -> <<Park(m), [Grant(4) EXCEPT !.nosettle = TRUE], [e |-> "Yield", n |-> 12, nosettle |-> TRUE], [e |-> "ACancel", l |-> "L1"]>> \o PBody(sc, i + 1, m + 2, d)
+    [] e = "ParkD" -> <<Park(m), DispOne(d, TRUE), [e |-> "Yield", n |-> 12, nosettle |-> TRUE], [e |-> "ACancel", l |-> "L1"]>> \o PBody(sc, i + 1, m + 2, d + 1)
+    [] e = "Disp" -> <<DispOne(d, FALSE)>> \o PBody(sc, i + 1, m, d + 1)
+    [] OTHER -> <<[e |-> "Yield", n |-> 5]>> \o PBody(sc, i + 1, m, d)
+PSuffix == << [e |-> "ASend", l |-> "L1", m |-> 90, len |-> 20, batchable |-> TRUE], [e |-> "ASend", l |-> "L1", m |-> 91, len |-> 400, batchable |-> TRUE],
+              [e |-> "PFrame", perf |-> "disposition", ch |-> 3, ech |-> 0, f |-> [role |-> "r", first |-> [d |-> 0], last |-> [d |-> "last"], settled |-> TRUE, state |-> [k |-> "accepted", cond |-> "", txn |-> <<>>]]] >>
+           \o [i \in 1..(Depth + 2) |-> [e |-> "AAwaitOutcome", nth |-> i - 1]]
 SSuffix == << [e |-> "ACancel", l |-> "L1"], Grant(20), [e |-> "ASend", l |-> "L1", m |-> 90, len |-> 400, settled |-> TRUE], [e |-> "ASend", l |-> "L1", m |-> 91, len |-> 20, settled |-> TRUE] >>
 Done == Len(script) = Depth
 Emit == Done => PrintT(<<"SCRIPT", ToJson([side |-> "client", id |-> <<Part, AutoAccept, Pipe, Buf>> \o script, final_ms |-> 5000,
                            ev |-> IF Part = "recv" THEN RecvPrefix \o RBody(script, 1, 0) \o RSuffix
-                                  ELSE IF Part = "mix" THEN MixPrefix \o MBody(script, 1, 0, 1) \o MSuffix ELSE SendPrefix \o SBody(script, 1, 1, 0) \o SSuffix])>>)
+                                  ELSE IF Part = "mix" THEN MixPrefix \o MBody(script, 1, 0, 1) \o MSuffix
+                                  ELSE IF Part = "park" THEN SendPrefix \o <<Grant(3)>> \o PBody(script, 1, 1, 0) \o PSuffix ELSE SendPrefix \o SBody(script, 1, 1, 0) \o SSuffix])>>)
 =============================================================================
